@@ -127,6 +127,15 @@ func (tr *fnTrans) havocResult(in *ssa.Call) {
 
 // applyContract: assert requires, havoc the heap modulo the frame, assume ensures.
 func (tr *fnTrans) applyContract(in *ssa.Call, c *Contract, key string, args []Term) {
+	rts := tr.applyContractSig(c, key, args, in.Common().Signature(), tr.vname(in), in.Pos(), func() { tr.havocResult(in) })
+	if len(rts) == 1 {
+		tr.vals[in] = rts[0]
+	} else if len(rts) > 1 {
+		tr.tuples[in] = rts
+	}
+}
+
+func (tr *fnTrans) applyContractSig(c *Contract, key string, args []Term, sig *types.Signature, vname string, pos token.Pos, onError func()) []Term {
 	c.used = true
 	if c.Extern || c.Trusted {
 		tr.assumed[key] = true
@@ -134,11 +143,14 @@ func (tr *fnTrans) applyContract(in *ssa.Call, c *Contract, key string, args []T
 	for _, u := range c.Uses {
 		tr.uses[u] = true
 	}
-	in0 := tr.inB[tr.cur]
+	in0 := "true"
+	if tr.cur != nil {
+		in0 = tr.inB[tr.cur]
+	}
 	if len(c.Params) != len(args) {
 		tr.errorf("contract %s binds %d parameters, call in %s passes %d", key, len(c.Params), tr.key, len(args))
-		tr.havocResult(in)
-		return
+		onError()
+		return nil
 	}
 	pre := tr.env()
 	pre.vars = map[string]Term{}
@@ -147,7 +159,6 @@ func (tr *fnTrans) applyContract(in *ssa.Call, c *Contract, key string, args []T
 		if a.T == nil {
 			// typed nil by the callee's parameter type
 			var pt types.Type
-			sig := in.Common().Signature()
 			off := len(args) - sig.Params().Len()
 			if i-off >= 0 && i-off < sig.Params().Len() {
 				pt = sig.Params().At(i - off).Type()
@@ -168,11 +179,11 @@ func (tr *fnTrans) applyContract(in *ssa.Call, c *Contract, key string, args []T
 			tr.errorf("%s: requires of %s: %s: %v", tr.key, key, r.Src, err)
 			continue
 		}
-		tr.oblige("pre", fmt.Sprintf("pre[%s#%d:%s]", key, k, labelOr(r.Label, i)), t.S, r.Src, in.Pos())
+		tr.oblige("pre", fmt.Sprintf("pre[%s#%d:%s]", key, k, labelOr(r.Label, i)), t.S, r.Src, pos)
 		tr.hyp(implies(in0, t.S))
 	}
 	// results
-	res := in.Common().Signature().Results()
+	res := sig.Results()
 	var rts []Term
 	for i := 0; i < res.Len(); i++ {
 		s, err := tr.v.sortOf(res.At(i).Type())
@@ -180,7 +191,7 @@ func (tr *fnTrans) applyContract(in *ssa.Call, c *Contract, key string, args []T
 			tr.errorf("result sort of %s: %v", key, err)
 			s = SInt
 		}
-		name := tr.vname(in)
+		name := vname
 		if res.Len() > 1 {
 			name = fmt.Sprintf("%s_%d", name, i)
 		}
@@ -189,11 +200,6 @@ func (tr *fnTrans) applyContract(in *ssa.Call, c *Contract, key string, args []T
 	}
 	if len(c.Results) != len(rts) {
 		tr.errorf("contract %s binds %d results, callee returns %d", key, len(c.Results), len(rts))
-	}
-	if res.Len() == 1 {
-		tr.vals[in] = rts[0]
-	} else if res.Len() > 1 {
-		tr.tuples[in] = rts
 	}
 	oldHeap := map[string]string{}
 	for k, v := range tr.heap {
@@ -258,6 +264,7 @@ func (tr *fnTrans) applyContract(in *ssa.Call, c *Contract, key string, args []T
 		}
 		tr.hyp(implies(in0, t.S))
 	}
+	return rts
 }
 
 func (tr *fnTrans) builtin(in *ssa.Call, name string, args []Term) {
